@@ -6,10 +6,14 @@ TD == {<<"", "none">>, <<"", "s">>, <<"", "i">>, <<"string", "none">>, <<"string
 Sigs == {[ps |-> <<P("p", a[1], a[2])>>, rest |-> r] : a \in TD, r \in BOOLEAN}
         \cup {[ps |-> <<P("p", a[1], a[2]), P("q", b[1], b[2])>>, rest |-> r] : a \in TD, b \in TD, r \in BOOLEAN}
 Calls == [ArgNames -> Kinds \cup {"-"}]
-VARIABLES sig, call, done
-Init == sig \in Sigs /\ call \in Calls /\ done = FALSE
-Next == ~done /\ done' = TRUE /\ UNCHANGED <<sig, call>>
-InvExactlyDeclared == done => ExactlyDeclared(sig, call)
-InvNothingLost == done => NothingLost(sig, call)
-Emit == done => PrintT(<<"VEC", ToJson([sig |-> sig, call |-> call, b |-> Bind(sig, call)])>>)
+VARIABLES sig, call, done, pv
+NoSig == [ps |-> <<P("p", "", "none")>>, rest |-> FALSE]
+NoCall == [a \in ArgNames |-> "-"]
+Init == \/ sig \in Sigs /\ call \in Calls /\ done = FALSE /\ pv = <<>>
+        \/ sig = NoSig /\ call = NoCall /\ done = FALSE /\ pv \in PrioVectors
+Next == ~done /\ done' = TRUE /\ UNCHANGED <<sig, call, pv>>
+InvExactlyDeclared == done /\ pv = <<>> => ExactlyDeclared(sig, call)
+InvNothingLost == done /\ pv = <<>> => NothingLost(sig, call)
+Emit == done => IF pv = <<>> THEN PrintT(<<"VEC", ToJson([sig |-> sig, call |-> call, b |-> Bind(sig, call)])>>)
+                ELSE PrintT(<<"PRIO", ToJson([v |-> pv, o |-> PrioOutcome(pv)])>>)
 =============================================================================
